@@ -81,7 +81,7 @@ def moves(tc, rng):
     return out
 
 
-def run_tree_property(pid, prop_file, tier, seed, want):
+def run_tree_property(pid, prop_file, tier, seed, want, extra=None):
     """want: set of {'structure','placement','data','lookup'}"""
     rep = vlib.Report(pid, tier, seed, "proof")
     sdir = vlib.scratch(pid)
@@ -201,6 +201,8 @@ def run_tree_property(pid, prop_file, tier, seed, want):
                                 "(d=1..4, uniform/clustered/corner/single-leaf/faces/lattice, B in {1,2,3,5,8,n/2,n,n+1,1000,1e7}); non-trivial = height>=3 and >=2 groups at some level; distinct by case text. "
                                 "exhaustive family: %d cases" % nexh)
         rep.count("exhaustive_cases", nexh)
+        if extra:
+            extra(rep, sdir)
         return rep.finish()
     finally:
         vlib.cleanup(sdir)
